@@ -355,6 +355,15 @@ func (gp *GenginePool) UpdatePooledRulesIncremental(ruleStr string) error {
 		return e
 	}
 
+	//after ClearPoolRules there is no main rule builder: start again from an empty one
+	if gp.ruleBuilder == nil {
+		dataContext := context.NewDataContext()
+		for k, v := range gp.apis {
+			dataContext.Add(k, v)
+		}
+		gp.ruleBuilder = builder.NewRuleBuilder(dataContext)
+	}
+
 	//update main
 	updateIncremental(kci, gp.ruleBuilder)
 
@@ -382,6 +391,10 @@ func (gp *GenginePool) ClearPoolRules() {
 func (gp *GenginePool) RemoveRules(ruleNames []string) error {
 	gp.updateLock.Lock()
 	defer gp.updateLock.Unlock()
+
+	if gp.ruleBuilder == nil {
+		return errors.New("no rules in pool! ")
+	}
 
 	e := gp.ruleBuilder.RemoveRules(ruleNames)
 	if e != nil {
